@@ -171,7 +171,11 @@ class TE:
     def sqrt_form(self, arg):
         """arg of a ceil: `sqrt(D)` or `(A ± … + sqrt(D)) / c`  ->  exact integer term, else None"""
         def is_sqrt(x):
-            return isinstance(x, ast.Call) and ast.unparse(x.func) in _SQRT and len(x.args) == 1
+            if isinstance(x, ast.Call) and ast.unparse(x.func) in _SQRT:
+                if x.keywords or len(x.args) != 1:
+                    raise Untranslatable(f'square root with extra / keyword arguments (dtype=, out=, …): {ast.unparse(x)}')
+                return True
+            return False
         if is_sqrt(arg):
             return f'(pyCeilSqrt {self.as_int(arg.args[0])})'
         if isinstance(arg, ast.BinOp) and isinstance(arg.op, ast.Div) and _pos_lit(arg.right):
@@ -192,14 +196,20 @@ class TE:
                 return None
             if roots[0][0] != 1:
                 raise Untranslatable(f'square root with a minus sign: {ast.unparse(arg)}')
+            # canonical shape `pyCeilDiv (A + pyCeilSqrt D) c` whatever the order of the summands in the source
             acc = None
             for sg, x in terms:
-                t = f'(pyCeilSqrt {self.as_int(x.args[0])})' if is_sqrt(x) else self.as_int(x)
+                if is_sqrt(x):
+                    continue
+                t = self.as_int(x)
                 if acc is None:
                     acc = t if sg == 1 else f'(-{t})'
                 else:
                     acc = f'({acc} {"+" if sg == 1 else "-"} {t})'
-            return f'(pyCeilDiv {acc} {_ilit(arg.right.value)})'
+            if acc is None:
+                acc = '(0 : Int)'
+            root = f'(pyCeilSqrt {self.as_int(roots[0][1].args[0])})'
+            return f'(pyCeilDiv ({acc} + {root}) {_ilit(arg.right.value)})'
         return None
 
     def call(self, e):
@@ -547,17 +557,19 @@ def purity_problems(fn):
     calls whose target is rooted in such a name (module attributes, function attributes, module lists and dicts);
     mutable default arguments; decorators other than a plain result cache (results here are tuples of ints)."""
     out = []
-    params = {a.arg for a in fn.args.args + fn.args.kwonlyargs}
+    params = {a.arg for a in fn.args.args + fn.args.kwonlyargs + fn.args.posonlyargs}
     if fn.args.vararg or fn.args.kwarg:
         out.append('*args / **kwargs')
+    if fn.args.kwonlyargs or fn.args.defaults or fn.args.posonlyargs:
+        out.append('parameters with defaults / keyword-only / positional-only parameters (the index maps take the index only)')
     for d in list(fn.args.defaults) + [d for d in fn.args.kw_defaults if d is not None]:
         if not (isinstance(d, ast.Constant) or (isinstance(d, ast.UnaryOp) and isinstance(d.operand, ast.Constant))
                 or (isinstance(d, ast.Tuple) and all(isinstance(x, ast.Constant) for x in d.elts))):
             out.append(f'mutable or computed default argument {ast.unparse(d)}')
     for d in fn.decorator_list:
         name = ast.unparse(d.func) if isinstance(d, ast.Call) else ast.unparse(d)
-        if name not in _CACHE_DECORATORS:
-            out.append(f'decorator {ast.unparse(d)}')
+        out.append(f'decorator {ast.unparse(d)}' + (' (a result cache: harmless if correct, checked by execution)'
+                                                     if name in _CACHE_DECORATORS else ''))
     local = set(params)
     for n in ast.walk(fn):
         if isinstance(n, (ast.Global, ast.Nonlocal)):
@@ -709,7 +721,33 @@ def generate(repo):
     def stateless():
         fns = [get_def(mo, 'sign'), get_def(mo, 'is_odd'), get_def(xy, 'xy_j_to_mn')] + \
               [get_def(zk, n) for n in ('nm_to_fringe', 'nm_to_ansi_j', 'ansi_j_to_nm', 'noll_to_nm', 'fringe_to_nm')]
-        return not any(purity_problems(f) for f in fns)
+        return True if not any(purity_problems(f) for f in fns) else None     # None: not decidable from the text -> degraded tie, wider probing
+    def public_names():
+        ini, _ = load(repo, 'prysm/polynomials/__init__.py')
+        want = {'zernike': {'ansi_j_to_nm', 'nm_to_ansi_j', 'nm_to_fringe', 'noll_to_nm', 'fringe_to_nm'}, 'xy': {'xy_j_to_mn'}}
+        names = set().union(*want.values())
+        bound = {}
+        for st in ini.body:
+            if isinstance(st, ast.ImportFrom) and st.level == 1:
+                for a in st.names:
+                    nm = a.asname or a.name
+                    if nm in names:
+                        bound[nm] = (st.module, a.name)
+            else:
+                for x in ast.walk(st):
+                    if isinstance(x, (ast.FunctionDef, ast.ClassDef)) and x.name in names:
+                        return None
+                    if isinstance(x, ast.Name) and isinstance(x.ctx, (ast.Store, ast.Del)) and x.id in names:
+                        return None
+                    if isinstance(x, ast.ImportFrom) or isinstance(x, ast.Import):
+                        if any((a.asname or a.name) in names for a in x.names):
+                            return None
+        for mod_, ns in want.items():
+            for nm in ns:
+                if bound.get(nm) != (mod_, nm):
+                    return None            # rebound, aliased or wrapped: not decidable from the text -> degraded tie
+        return True
+    g.fact('publicNamesAreTheSubmoduleFunctions', 'prysm/polynomials/__init__.py', public_names)
     g.fact('indexMapsReadAndWriteNoModuleState', 'prysm/polynomials/zernike.py, xy.py, mathops.py', stateless)
     return g.finish()
 
